@@ -136,6 +136,9 @@ func runHistory(bi int, steps []step, le *logrus.Entry, emit func(map[string]any
 					rcancel()
 					continue
 				}
+				// sequence number of the CALL START: the message is consumed (and thereby acked) inside Recv, so a number taken after Recv
+				// returns can be overtaken by the sender's return; "received in a call that started before the Send returned" is sound
+				callSeq := gseq.Add(1)
 				m, err := n.ref.Recv(rctx)
 				rcancel()
 				if err != nil {
@@ -146,7 +149,7 @@ func runHistory(bi int, steps []step, le *logrus.Entry, emit func(map[string]any
 					continue
 				}
 				mu.Lock()
-				recvs = append(recvs, recvRec{P: p, I: i, Data: string(m.GetSignedMsg().GetData()), From: nameOf[m.GetSignedMsg().GetFromPeerId()], Seq: gseq.Add(1)})
+				recvs = append(recvs, recvRec{P: p, I: i, Data: string(m.GetSignedMsg().GetData()), From: nameOf[m.GetSignedMsg().GetFromPeerId()], Seq: callSeq})
 				mu.Unlock()
 			}
 		}()
